@@ -17,7 +17,7 @@ RULE = (
     "1..3 runs (temperature sweep), an exception class from {ValueError, KeyError, RuntimeError, ZeroDivisionError, OSError, "
     "TypeError, IndexError, AssertionError, StopIteration, a custom Exception subclass, a custom class with a two-argument "
     "constructor} and a mode (exposure, exposure with debug, sequential observation, dask observation with the synchronous "
-    "and the threaded scheduler); for each such configuration the fault site (run, step, enabled model position) is "
+    "and the threaded scheduler), with or without a working directory configured on the running mode; for each such configuration the fault site (run, step, enabled model position) is "
     "ENUMERATED EXHAUSTIVELY and each site is one execution. Oracle: the call (or compute) raises; the chain text carries "
     "the unique token, the injected type, group and model name and - sequentially - every parameter key and value; no result "
     "is returned; no later model / step / run executes; on the dask path the failing run's entries cannot be computed. "
@@ -51,6 +51,8 @@ def configs(draw):
     return {"models": models, "steps": draw(st.integers(1, 3)), "mode": mode, "exc": draw(st.sampled_from(EXC)),
             # the failing model raises the very same exception object at every site of this configuration (as a failed future or a cached error does)
             "same_instance": draw(st.sampled_from([False, False, True])),
+            # the running mode is configured with a working directory (the YAML 'working_directory:' entry)
+            "workdir": draw(st.sampled_from([False, False, True])),
             "temps": draw(st.lists(st.sampled_from([50.0, 100.0, 150.0, 200.0]), min_size=1, max_size=3, unique=True)) if mode.startswith("obs") else [100.0]}
 
 
@@ -96,6 +98,8 @@ def run_site(cfg, site, rec, tmp):
     failing = order[site["pos"]]
     times = [float(i + 1) for i in range(cfg["steps"])]
     spec = {"detector": simple_spec("CCD", row=2, col=2), "pipeline": _pipeline(cfg, site, token), "readout": {"times": times}}
+    if cfg.get("workdir"):
+        spec["working_directory"] = str(tmp)
     if mode.startswith("exposure"):
         spec["mode"] = {"kind": "exposure"}
     else:
@@ -193,7 +197,8 @@ def body(cfg, rec):
 
     _P.SAME_INSTANCE.clear()  # (per configuration; the sites of one configuration share the object)
     order = _order(cfg["models"])
-    rec.cls(f"mode:{cfg['mode']}", f"exc:{cfg['exc']}", "same_exception_object_at_every_site" if cfg.get("same_instance") else "fresh_exception_objects")
+    rec.cls(f"mode:{cfg['mode']}", f"exc:{cfg['exc']}", "same_exception_object_at_every_site" if cfg.get("same_instance") else "fresh_exception_objects",
+            "working_directory_set" if cfg.get("workdir") else "no_working_directory")
     first = True
     for r in range(len(cfg["temps"])):
         for s in range(cfg["steps"]):
